@@ -73,7 +73,7 @@ func parseStatus(out string) string {
 
 // Solve runs the solvers on the full script and, if given, on the instantiated (QF) variant.
 // An unsat answer from either is a proof; only a sat answer on the full script is a counterexample.
-func Solve(file, qfFile string, timeout time.Duration, all bool, cover ...bool) *SolveResult {
+func Solve(file, qfFile, liaFile string, timeout time.Duration, all bool, cover ...bool) *SolveResult {
 	isCover := len(cover) > 0 && cover[0]
 	ctx, cancel := context.WithTimeout(context.Background(), timeout+2*time.Second)
 	defer cancel()
@@ -101,11 +101,19 @@ func Solve(file, qfFile string, timeout time.Duration, all bool, cover ...bool) 
 			runs = append(runs, run{s, qfFile, true})
 		}
 	}
+	if liaFile != "" {
+		for _, s := range solvers {
+			if s.name == "z3" {
+				continue
+			}
+			runs = append(runs, run{solverSpec{s.name + "+int", s.argv}, liaFile, true})
+		}
+	}
 	ch := make(chan ans, len(runs))
 	for _, r := range runs {
 		go func(r run) {
 			// staged start: z3-new first; the other solvers only join if it has not answered quickly
-			if r.s.name != "z3-new" {
+			if r.s.name != "z3-new" && r.s.name != "z3-new+int" {
 				select {
 				case <-ctx.Done():
 					ch <- ans{r.s.name, "unknown", "", 0, r.qf}
@@ -125,7 +133,7 @@ func Solve(file, qfFile string, timeout time.Duration, all bool, cover ...bool) 
 				st = "timeout"
 			}
 			name := r.s.name
-			if r.qf {
+			if r.qf && !strings.HasSuffix(name, "+int") {
 				name += "+inst"
 			}
 			ch <- ans{name, st, buf.String(), time.Since(t0).Seconds(), r.qf}
